@@ -201,6 +201,14 @@ def check_metric(case):
                     dis.append({"clause": "ArcLeft", "detail": "%s: a path beginning with the arc still contains an Arc after the conversion: %r" % (what, [type(g).__name__ for g in path3])})
                 else:
                     chains.append(("path beginning with the arc", list(path3)[:len(path3) - len(post)], True))
+                # ... and closed: the close still returns to the start of the sub-path, the arc's start point
+                s0p = svg.Point(*f(0.0))
+                mid = svg.Point(s0p.x + 3 * U, s0p.y - 40 * U)
+                path4 = svg.Path(mk(), svg.Line(svg.Point(*f(1.0)), svg.Point(mid)), svg.Close(svg.Point(mid), svg.Point(s0p)))
+                (path4.approximate_arcs_with_cubics if degree == "cubic" else path4.approximate_arcs_with_quads)()
+                cl = path4[len(path4) - 1]
+                if not isinstance(cl, svg.Close) or not samepoint(cl.end, s0p) or not samepoint(cl.start, mid):
+                    dis.append({"clause": "NeighbourChanged", "detail": "%s: closed path beginning with the arc: the close is now %r, it closed to %r" % (what, cl, s0p)})
             except engine.CaseTimeout:
                 raise
             except Exception as ex:
